@@ -19,7 +19,7 @@ from . import common, pipecheck, scenes
 LABELINGS = ['shuffled', 'offset', 'float', 'string', 'concat_repeats', 'all_equal', 'random_repeats', 'negative']
 LAYOUTS = ['col_perm', 'extra_cols', 'dtype_obj_ceilo', 'dtype_int_dt', 'dtype_int_height', 'dtype_float_type',
            'dtype_int8_type', 'dtype_object_all']
-RENAMINGS = ['reverse_order', 'ten_nine', 'substring', 'whitespace', 'long', 'unicode', 'empty_ish', 'swap']
+RENAMINGS = ['reverse_order', 'ten_nine', 'substring', 'whitespace', 'long', 'unicode', 'empty_ish', 'swap', 'concat_collision', 'concat_collision']
 
 
 def observe(obs):
@@ -79,7 +79,7 @@ def relayout(df, how, rng):
     out = df.copy()
     if how == 'col_perm':
         cols = list(out.columns); rng.shuffle(cols); out = out[cols]
-    elif how == 'extra_cols':
+    elif how == 'extra_cols' and 'station' not in out.columns:
         out.insert(rng.randrange(len(out.columns) + 1), 'station', 'LSZH')
         out['quality'] = np.arange(len(out)) * 0.5
     elif how == 'dtype_obj_ceilo':
@@ -99,8 +99,39 @@ def relayout(df, how, rng):
     return out
 
 
-def rename_map(names, how, rng):
+def _collision_names(names, rows, rng):
+    """Names built from the scene's own time stamps so that *gluing* a name and a time stamp into one key is ambiguous:
+    if str(a) == pre + str(b) for time stamps a (seen by ceilometer i) and b (seen by j), then i -> 'K', j -> 'K' + pre
+    gives 'K' + str(a) == ('K' + pre) + str(b).  Names are labels: a correct implementation cannot tell."""
+    dts = {}
+    for c, dt, _, _ in rows:
+        dts.setdefault(c, set()).add(float(dt))
+    cands = []
+    for ci in names:
+        for cj in names:
+            if ci == cj:
+                continue
+            for a in dts.get(ci, ()):
+                for b in dts.get(cj, ()):
+                    for fmt in (str, lambda x: str(int(x)) if float(x).is_integer() else str(x)):
+                        sa, sb = fmt(a), fmt(b)
+                        if len(sa) > len(sb) and sa.endswith(sb):
+                            cands.append((ci, cj, sa[:-len(sb)]))
+    if not cands:
+        return None
+    ci, cj, pre = rng.choice(sorted(set(cands)))
+    m = {c: f'c{i}' for i, c in enumerate(names)}
+    m[ci], m[cj] = 'K', 'K' + pre
+    return m
+
+
+def rename_map(names, how, rng, rows=None):
     names = sorted(names)
+    if how == 'concat_collision':
+        m = _collision_names(names, rows or [], rng)
+        if m is not None:
+            return m
+        how = 'substring'
     if how == 'reverse_order':
         new = sorted((f'c{i:03d}' for i in range(len(names))), reverse=True)
     elif how == 'ten_nine':
@@ -133,6 +164,10 @@ def _work(args):
         prms = {'BASE_LVL_LOOKBACK_PERC': rng.choice([33, 10, 7, 61, 12.5, 66.6]), 'BASE_LVL_HEIGHT_PERC': rng.choice([0, 5, 50, 100, 2.5])}
     else:
         rows, prms, meta = pipecheck.gen_scene(seed, k, fam)
+    if prop == 'C16' and rng.random() < 0.3:
+        # the time axis is relative to an arbitrary reference: scenes whose last measurement is at dt = 0 or later
+        shift = rng.choice([0.0, 60.0, 450.0]) - max(r[1] for r in rows)
+        rows = [(c, float(dt + shift), h, t) for c, dt, h, t in rows]
     if prop == 'C16' and rng.random() < 0.6:
         names = sorted({r[0] for r in rows})
         prms = dict(prms)
@@ -150,11 +185,27 @@ def _work(args):
                 base_df = pd.concat(parts).reset_index(drop=True)      # same row order as the variant
                 rows = scenes.data_rows(base_df)
             var_df = relabel(base_df, how, rng) if how in LABELINGS else relayout(base_df, how, rng)
+            if rng.random() < 0.55:
+                # composed transformations: labels and layout / dtypes changed together (each of the property's
+                # "index labels, column order, extra columns, dtype variants" may come with any other)
+                extra = [x for x in ([rng.choice(LAYOUTS)] if how in LABELINGS else
+                                     [rng.choice([l for l in LABELINGS if l != 'concat_repeats'])]) ]
+                if rng.random() < 0.4:
+                    extra.append(rng.choice([l for l in LAYOUTS if l not in extra and l != how]))
+                for x in extra:
+                    var_df = relabel(var_df, x, rng) if x in LABELINGS else relayout(var_df, x, rng)
+                how = '+'.join([how] + extra)
+                res['transform'] = how
+            if 'MSA' not in prms and rng.random() < 0.35:
+                hs_ = sorted(r_[2] for r_ in rows if r_[2] == r_[2])
+                if hs_:
+                    prms = dict(prms, MSA=float(rng.choice([hs_[len(hs_) // 2], hs_[-1] - 1, 10000.0])),
+                                MSA_HIT_BUFFER=rng.choice([0, 100, 1500]))
             var_prms = prms
         else:
             how = rng.choice(RENAMINGS)
             res['transform'] = how
-            m = rename_map({r[0] for r in rows}, how, rng)
+            m = rename_map({r[0] for r in rows}, how, rng, rows)
             var_df = base_df.copy()
             var_df['ceilo'] = pd.array([m[c] for c in base_df['ceilo']], dtype=pd.StringDtype())
             var_prms = dict(prms)
@@ -199,7 +250,8 @@ def run_metamorph(chk, prop, n):
         if r.get('req'):
             a = scenes.parse_run_answer(answers[r['k']])
             if a['bad']:
-                raise common.InfraError('driver rejected a request')
+                chk.mismatch('what the implementation produced cannot be expressed as a model request (driver: bad-request)', answers[r['k']][:200], replay)
+                continue
             for ne in a['ne']:
                 chk.mismatch('cascade model = implementation (base frame)', ne[:300], replay)
 
